@@ -31,7 +31,7 @@ ASSUMPTIONS = [
     "otherwise",
 ]
 NONTRIVIAL = ["cell"]
-DEADLINE = {"quick": 70, "thorough": 1200}
+DEADLINE = {"quick": 150, "thorough": 1200}
 
 REJECT_OK = (E.TLSBadRecordMAC, E.TLSDecryptionFailed, E.TLSRecordOverflow,
              E.TLSIllegalParameterException, E.TLSUnexpectedMessage)
